@@ -12,8 +12,12 @@ CHAIN_ABS = {"NE/4": ["NE"], "N/2SW/4": ["N", "SW"], "S/2N/2": ["S", "N"], "W/2"
              "N½NE¼": ["N", "NE"], "E/2SE/4": ["E", "SE"], "NW/4": ["NW"],
              "N/2NE/4NE/4": ["N", "NE", "NE"], "NE/4NE/4NE/4": ["NE", "NE", "NE"], "S/2N/2NW/4SW/4": ["S", "N", "NW", "SW"],
              "W½SE¼SW¼": ["W", "SE", "SW"], "E/2W/2NE/4": ["E", "W", "NE"], "SW/4SE/4NW/4": ["SW", "SE", "NW"],
-             "N/2S/2SE/4NE/4": ["N", "S", "SE", "NE"]}
-DEEP_CHAINS = [c for c in CHAIN_ABS if len(CHAIN_ABS[c]) >= 3]
+             "N/2S/2SE/4NE/4": ["N", "S", "SE", "NE"],
+             # bare spellings (a half written with its digit, then quarters by their letters only) and worded joiners
+             "N2SWNE": ["N", "SW", "NE"], "E2SENW": ["E", "SE", "NW"], "S2NENW": ["S", "NE", "NW"], "W2SESW": ["W", "SE", "SW"],
+             "N2SW": ["N", "SW"], "E2NW": ["E", "NW"], "W2 of NW of NE": ["W", "NW", "NE"], "S2SWSE": ["S", "SW", "SE"],
+             "N/2 of the SE/4 of the NW/4": ["N", "SE", "NW"], "South Half of the Northeast Quarter": ["S", "NE"]}
+DEEP_CHAINS = [c for c in CHAIN_ABS if len(CHAIN_ABS[c]) >= 3 or c not in CHAINS]
 CFGX = [None, None, None, "qq_depth.1", "qq_depth.3", "qq_depth_min.1,qq_depth_max.2", "break_halves", "qq_depth_min.3,break_halves",
         "qq_depth_max.3,break_halves", "qq_depth_max.4,break_halves", "qq_depth_max.3", "qq_depth_min.1,break_halves"]
 
